@@ -1,6 +1,9 @@
 package interp
 
-import "unsafe"
+import (
+	"go/types"
+	"unsafe"
+)
 
 func init() {
 	externals["internal/abi.NoEscape"] = func(fr *frame, a []value) value { return a[0] }
@@ -12,4 +15,59 @@ func init() {
 
 func init() {
 	externals[utlsPath+".verifConcretizeU16"] = extVerifConcretize
+}
+
+// NIST-curve public keys: point validation (assembly field arithmetic) is a
+// contract model — an uncompressed point of the curve's size is accepted.
+func init() {
+	externals["(*crypto/ecdh.nistCurve).NewPublicKey"] = func(fr *frame, a []value) value {
+		key := a[1].([]value)
+		c := (*a[0].(*value)).(structure)
+		name, _ := c[0].(string)
+		want := map[string]int{"P-256": 65, "P-384": 97, "P-521": 133}[name]
+		if len(key) != want {
+			return tuple{(*value)(nil), mkError(fr, "crypto/ecdh: invalid public key")}
+		}
+		p := fr.i.prog.ImportedPackage("crypto/ecdh")
+		pk := zero(p.Type("PublicKey").Type()).(structure)
+		pk[0] = iface{t: typesNewPointer(p.Type("nistCurve").Type()), v: a[0]}
+		pk[1] = append([]value{}, key...)
+		cell := value(pk)
+		return tuple{&cell, iface{}}
+	}
+	externals["(*crypto/mlkem.DecapsulationKey768).Decapsulate"] = func(fr *frame, a []value) value {
+		ct := a[1].([]value)
+		if len(ct) != 1088 {
+			return tuple{[]value(nil), mkError(fr, "mlkem: invalid ciphertext length")}
+		}
+		out := make([]value, 32)
+		for i := range out {
+			out[i] = fr.ctx().NewInput("mlkemshared", kindU8)
+		}
+		return tuple{out, iface{}}
+	}
+}
+
+// prefixExternals are matched by prefix (generic instantiations carry their
+// type arguments in the function name).
+var prefixExternals = map[string]externalFn{}
+
+func init() {
+	// TLS 1.3 key schedule entry points: opaque secret objects (HKDF/HMAC are
+	// cryptography, outside the encoding).
+	mkOpaque := func(fr *frame, a []value) value {
+		res := fr.fn.Signature.Results()
+		if res.Len() != 1 {
+			panic(unsupported("opaque model for %s", fr.fn))
+		}
+		pt, ok := res.At(0).Type().Underlying().(*types.Pointer)
+		if !ok {
+			panic(unsupported("opaque model for %s", fr.fn))
+		}
+		cell := zero(pt.Elem())
+		return &cell
+	}
+	prefixExternals[utlsPath+"/internal/tls13.NewEarlySecret["] = mkOpaque
+	prefixExternals[utlsPath+"/internal/tls13.NewEarlySecretFromSecret["] = mkOpaque
+	prefixExternals[utlsPath+"/internal/tls13.NewMasterSecretFromSecret["] = mkOpaque
 }
